@@ -21,9 +21,10 @@ parameter values or the dependence functions as (kind, coefficients)) and `_veri
 (the python callables), so that a driver can evaluate parameters itself.
 
 Dependence functions map EVERY real given to an admissible parameter value (the given may be
-negative for Normal / von Mises parents), and they are vectorised (a + 0*x for constants:
-a scalar-valued dependence function would make ConditionalDistribution.draw_sample(1, given)
-draw a single value for all rows, which is outside the documented use).
+negative for Normal / von Mises parents).  describe() writes constants as a + 0*x (vectorised);
+constant_style() rewrites them as scalar-returning callables (`lambda x, a: a`) or as fixed
+parameters of the conditional distribution -- both are legal and must still give one independent
+draw per row (C07).
 """
 import numpy as np
 
@@ -60,6 +61,11 @@ def _const(x, a=1.0):
     return a + 0.0 * np.asarray(x, dtype=float)
 
 
+def _scalar(x, a=1.0):
+    """ignores the given and returns a python scalar (legal: `lambda x, a=2.0: a`)"""
+    return float(a)
+
+
 def _linear(x, a=0.0, b=1.0):
     return a + b * np.asarray(x, dtype=float)
 
@@ -92,7 +98,7 @@ def _tanh3(x, a=0.0, b=1.0, c=1.0):
     return a + b * np.tanh(c * np.asarray(x, dtype=float))
 
 
-FUNCS = {"const": _const, "linear": _linear, "abslinear": _abslinear, "power3": _power3,
+FUNCS = {"const": _const, "scalar": _scalar, "linear": _linear, "abslinear": _abslinear, "power3": _power3,
          "exp3": _exp3, "asym3": _asym3, "logistic3": _logistic3, "tanh3": _tanh3, "loglinear": _loglinear}
 
 
@@ -286,16 +292,38 @@ def param_values(desc, i, given):
     return out
 
 
+def constant_style(desc, style):
+    """Rewrite the parameters of conditional dimensions that do not vary with the given:
+    style "scalar": dependence callable that ignores x and returns a scalar (lambda x, a: a);
+    style "fixed":  fixed parameter of the conditional distribution (f_<name>, not in `parameters`);
+    style "vector": a + 0*x (what describe() produces).  Returns the number of rewritten parameters."""
+    k = 0
+    for c, d in zip(desc["cond"], desc["dims"]):
+        if c is None:
+            continue
+        for p, (kind, co) in list(d["deps"].items()):
+            if kind != "const":
+                continue
+            if style == "scalar":
+                d["deps"][p] = ["scalar", [float(co[0])]]
+                k += 1
+            elif style == "fixed":
+                d["fixed"][p] = float(co[0])
+                del d["deps"][p]
+                k += 1
+    return k
+
+
 def nontrivial_dependence(desc):
     """At least one conditional dimension whose parameters really vary with the given."""
-    return any(c is not None and any(k != "const" for k, _ in d["deps"].values())
+    return any(c is not None and any(k not in ("const", "scalar") for k, _ in d["deps"].values())
                for c, d in zip(desc["cond"], desc["dims"]))
 
 
 def column_sensitive(desc):
     """A dimension conditional on a column other than 0 whose parameters vary with the given:
     reading another column (e.g. cond-1) changes the result."""
-    return any(c is not None and c >= 1 and any(k != "const" for k, _ in d["deps"].values())
+    return any(c is not None and c >= 1 and any(k not in ("const", "scalar") for k, _ in d["deps"].values())
                for c, d in zip(desc["cond"], desc["dims"]))
 
 
